@@ -157,4 +157,49 @@ instance : RAsU64 Nat := ⟨fun x => x⟩
 instance : RAsU64 Int := ⟨fun x => (x % 18446744073709551616).toNat⟩
 def as_u64 [RAsU64 α] (x : α) : Nat := RAsU64.as_u64 x
 
+/-! ### `Result`, `str::parse::<u64>`, `char` classes -/
+
+instance {ε : Type} : RMap (Except ε) := ⟨fun r g => match r with | .ok a => .ok (g a) | .error e => .error e⟩
+/-- `Result::map_err` -/
+def map_err {ε ε' α : Type} (r : Except ε α) (g : ε → ε') : Except ε' α :=
+  match r with
+  | .ok a => .ok a
+  | .error e => .error (g e)
+/-- `Result::unwrap_or_else` -/
+def unwrap_or_else {ε α : Type} (r : Except ε α) (g : ε → α) : α :=
+  match r with
+  | .ok a => a
+  | .error e => g e
+
+/-- `core::num::IntErrorKind` as far as `u64::from_str` produces it -/
+inductive ParseIntError where
+  | empty
+  | invalidDigit
+  | posOverflow
+deriving DecidableEq, Repr
+
+/-- `SemverErrorKind::ParseIntError(e)` -/
+def parse_int_error_kind : ParseIntError → Semver.EKind
+  | .empty => .parseIntEmpty
+  | .invalidDigit => .parseIntInvalidDigit
+  | .posOverflow => .parseIntOverflow
+
+/-- `<u64 as FromStr>::from_str`: an optional `+`, then one or more ASCII digits, value below 2^64.
+(`""` is `Empty`; a lone `+` or any other character is `InvalidDigit`; a leading `-` is `InvalidDigit` for
+unsigned types; too large a value is `PosOverflow`.) -/
+def str_parse_u64 (s : List Char) : Except ParseIntError Nat :=
+  match s with
+  | [] => .error .empty
+  | c :: cs =>
+    let ds := if c == '+' then cs else c :: cs
+    if ds.isEmpty then .error .invalidDigit
+    else if !(ds.all Semver.isDigit) then .error .invalidDigit
+    else if Semver.valOf ds < Semver.U64 then .ok (Semver.valOf ds) else .error .posOverflow
+
+/-- `char::is_ascii_alphanumeric` -/
+def is_ascii_alphanumeric (c : Char) : Bool :=
+  ('0' ≤ c && c ≤ '9') || ('a' ≤ c && c ≤ 'z') || ('A' ≤ c && c ≤ 'Z')
+/-- `char::is_ascii_digit` -/
+def is_ascii_digit (c : Char) : Bool := '0' ≤ c && c ≤ '9'
+
 end Rust
